@@ -570,9 +570,13 @@ def prepare(ctx):
     hard, selfcheck = dl_extract.split_problems(problems)
     path = os.path.join(C.LEAN, "TinyVerif", "Gen", "DlmallocPure.lean")
     if hard:
+        # a broken obligation; the run goes on with the previously generated definitions so that the
+        # correspondence can still look for a concrete failing input on the implementation
         ctx.broken.append({"dl_extract": hard})
-        ctx.violation({"kind": "extractor-cannot-translate"}, {"problems": hard}, no_input=True)
-        return False
+        ctx.violation({"kind": "extractor-cannot-translate"},
+                      {"problems": hard, "note": "a pure helper of dlmalloc.rs is no longer in the translatable fragment; "
+                       "the theorems about Gen/DlmallocPure.lean no longer speak about the source"}, no_input=True)
+        return os.path.exists(path)
     old = open(path).read() if os.path.exists(path) else None
     if old != text:
         with open(path, "w") as f:
